@@ -118,9 +118,10 @@ fn run<P: Payload>(page: usize, hist: &[Op]) -> Result<Facts, String> {
                 match s.pages.remove(&addr) {
                     None => s.errors.push(format!("page {addr:#x} released but not owned (or released twice)")),
                     Some(len) => {
-                        let n = s.live.range(addr..addr + len).count();
-                        if n > 0 {
-                            s.errors.push(format!("page {addr:#x} released while {n} allocations inside it are still live"));
+                        // releasing a page wholesale ends the life of the node allocations inside it
+                        let inside: Vec<usize> = s.live.range(addr..addr + len).map(|e| *e.0).collect();
+                        for a in inside {
+                            s.live.remove(&a);
                         }
                     }
                 }
